@@ -23,7 +23,8 @@ def shapes(tier):
             out.append(replace(b, ku=k))
         out += [replace(b, eku=(7,)), replace(b, eku=(0, 6)), replace(b, custom=1, custom_crit=1), replace(b, custom=2, attrs=1),
                 replace(b, san=(0, 2), attrs=1, strlen=3), replace(b, san=(1,), strlen=1, attrs=2), replace(b, ku=1, attrs=2, alg=0),
-                replace(b, san=(4, 4)), replace(b, eku=(1, 2), ku=2, alg=3)]
+                replace(b, san=(4, 4)), replace(b, eku=(1, 2), ku=2, alg=3),
+                replace(b, custom=1, attrs=2, attr_req=1), replace(b, eku=(1,), attr_req=1, alg=0)]
     return out
 
 
